@@ -524,10 +524,16 @@ class Session:
         for name in op.get("dets", []):
             tealer.register_detector(self.detectors[name])
         dets = []
+        dets_ord: List[Any] = []
         results = tealer.run_detectors()
         with Quiet():
             for d, res in zip(tealer.detectors, results):
                 o = observe.output_obs(res)
+                # ... while for one and the same config text the outputs come in one order
+                # (compared with the pristine run of exactly this config)
+                dets_ord.append([d.NAME, observe.digest(o)])
+                if full:
+                    fulls["detord:" + d.NAME] = json.loads(json.dumps(o))
                 # one output per (operation, transaction): compared as a multiset, the order in
                 # which a config lists its operations is not part of the result
                 # ... and a contract's findings are listed function by function in the order the
@@ -544,6 +550,7 @@ class Session:
                 if full:
                     fulls["det:" + d.NAME] = o
         ev["obs"]["dets"] = dets
+        ev["obs"]["dets_ord"] = dets_ord
         if full:
             ev["full"] = fulls
 
@@ -571,7 +578,19 @@ class Session:
         ev["obs"] = {}
 
     def op_gc(self, op: Dict[str, Any], ev: Dict[str, Any]) -> None:
-        gc.collect()
+        # "t": a tuning knob of the interpreter under test, randomised per session: when cyclic
+        # garbage (a dropped Teal and its blocks) is reclaimed decides which addresses are reused
+        # and when weakly referenced cache entries disappear
+        t = op.get("t")
+        if t == "off":
+            gc.disable()
+        elif t == "on":
+            gc.enable()
+        elif isinstance(t, list):
+            gc.enable()
+            gc.set_threshold(*[int(x) for x in t])
+        else:
+            gc.collect()
         ev["obs"] = {}
 
     def op_drop(self, op: Dict[str, Any], ev: Dict[str, Any]) -> None:
